@@ -220,9 +220,10 @@ class Reader:
         rules = []
         while self.peek() is not None:
             # attributes
+            attrs = []
             while self.at("#"):
                 self.eat("#")
-                self.balanced("[", "]")
+                attrs.append("".join(x.v for x in self.balanced("[", "]")))
             t = self.peek()
             if t is None:
                 break
@@ -264,6 +265,7 @@ class Reader:
             self.eat("=")
             expr = self.parse_choice(stop_at_rule=True)
             rules.append(Rule(name.v, params, generics, " ".join(x.v for x in ret), expr, name.line, pub))
+            rules[-1].attrs = attrs
         return rules
 
     def angle(self):
